@@ -189,6 +189,15 @@ func (ec *evalCtx) ident(name string) (TV, error) {
 	if tv, ok := ec.bind[name]; ok {
 		return tv, nil
 	}
+	if strings.HasPrefix(name, "$iter") && ec.fr != nil {
+		// $iterK: in an unrolled loop K the index of the current iteration; after it the number of
+		// iterations completed when the loop was left through its head
+		key := fmt.Sprintf("U:loop%s@%d", strings.TrimPrefix(name, "$iter"), ec.fr.frameID)
+		if !ec.st.has(key) {
+			return TV{}, fmt.Errorf("%s: loop is not unrolled or has not been reached", name)
+		}
+		return TV{T: c.get(ec.st, key), Ty: types.Typ[types.Int]}, nil
+	}
 	if name == "$i" {
 		if ec.rangeIx == "" {
 			return TV{}, fmt.Errorf("$i used outside a range-over-index loop")
